@@ -12,9 +12,6 @@ NA = {
     'C06': 'pure text -> instances well-formedness over generated programs; nothing for a scheduler or fault injector to decide',
     'C07': 'pure text -> tree over enumerated/generated trees (bounded enumeration is model checking, generation is property-based testing); the stale-table hazard it mentions is neutralised for every check by importing from a scratch copy with regenerated tables, not claimed as a property',
     'C08': 'metamorphic relation on program text through three pure translations; no schedule, seam or fault',
-    'C14': 'pure loaded-BridgePoint-model -> component mapping; "edit scripts" enumerate inputs, not a schedule; needs a class-diagram generator and an independent mapper',
-    'C15': 'pure call graph -> value; needs the OAL program generator and reference evaluator of C04; no interleaving or fault in the statement',
-    'C20': 'pure loaded-BridgePoint-model -> XML tree mapping; edit scripts enumerate inputs; needs a model generator and an independent mapper',
 }
 
 # property -> (engine, category, technique, text, note, design_ref)
@@ -146,6 +143,27 @@ check('C01', 'storedisk', 'exploration',
       STORE_NOTE + ' Persistable domain = states whose referential values resolve (the join of the format reproduces the links); '
       'checkpoints of other states are skipped and counted. The variant without CREATE TABLE statements is not compared. One known '
       'finding (carriage returns through text-mode file routes) is listed in known_findings.json.', 'DESIGN.md §4 C01')
+
+ORDER_TECH = ('deterministic simulation: seeded delivery plans (row permutation x partition x route through string / file / '
+              'directory tree / zip on a simulated disk) of real BridgePoint model files, twin oracle (extraction from the natural order)')
+ORDER_NOTE = ('NARROW CLAIM: only the clause of the property that says the result does not depend on the order of the rows in the '
+              'model files (and on how they are split) is decided; the mapping itself is a pure function of the model and is not '
+              'decided by this technique (DESIGN.md §2, §12.7). Corpus: two real models plus seeded extra enumerations.')
+check('C14', 'modelorder', 'exploration', ORDER_TECH,
+      'The component built by build_component (classes with attributes in modelled order and core types, identifiers, '
+      'associations with key pairs, multiplicity, conditionality, phrases) is compared between the natural row order and 2-3 '
+      'seeded deliveries of the same rows (permuted, partitioned, routed through files, directory trees and zip archives).',
+      ORDER_NOTE, 'DESIGN.md §12.7')
+check('C15', 'modelorder', 'exploration', ORDER_TECH,
+      'Enumerator positions and constant values found through Domain.find_symbol are compared between the natural row order and '
+      '2-3 seeded deliveries of the same rows, and every enumerator position is compared with the modelled succession order (R56) '
+      'computed from the rows by an independent tokenizer; seeded extra enumerations with scrambled enumerator rows are added.',
+      ORDER_NOTE + ' Invocation semantics (parameter binding, scopes, return values, derived attributes) are NOT decided.',
+      'DESIGN.md §12.7')
+check('C20', 'modelorder', 'exploration', ORDER_TECH,
+      'The XSD schema built by gen_xsd_schema.build_schema for every component (declarations and attributes as sets, enumerators '
+      'in order) is compared between the natural row order and 2-3 seeded deliveries of the same rows.',
+      ORDER_NOTE, 'DESIGN.md §12.7')
 
 
 def build():
